@@ -5,6 +5,8 @@ package verifsim
 import (
 	"context"
 	"database/sql"
+	"encoding/hex"
+	"encoding/json"
 	"errors"
 	"fmt"
 	"io"
@@ -122,7 +124,11 @@ func newMainWorld(p *Plan) (*mainWorld, error) {
 		st.xsigs = int(p.Cfg.Extra[fmt.Sprintf("xsig%d", i)])
 		m.stubs = append(m.stubs, st)
 		m.sn.Hosts[host] = st
-		if p.Cfg.Extra["redirected_logs"] != 0 && i > 0 {
+		if kind == "rekor" {
+			// a Rekor-style log: log info as JSON (the configured tree is the active shard, or one of the inactive ones), proofs as JSON
+			m.sn.Hosts[host] = &rekorStub{st: st, treeID: fmt.Sprint(7000 + i), inactive: p.Cfg.Extra[fmt.Sprintf("ext%d", i)] != 0}
+		}
+		if p.Cfg.Extra["redirected_logs"] != 0 && i > 0 && kind != "rekor" {
 			// the configured URL is an alias that redirects to where the log lives
 			alias, target := fmt.Sprintf("alias%d.example", i), host
 			m.sn.Hosts[alias] = http.HandlerFunc(func(rw http.ResponseWriter, rq *http.Request) {
@@ -133,6 +139,9 @@ func newMainWorld(p *Plan) (*mainWorld, error) {
 		url := "http://" + host
 		if kind == "tiles" {
 			url += "/"
+		}
+		if kind == "rekor" {
+			url += fmt.Sprintf("/?treeID=%d", 7000+i)
 		}
 		fmt.Fprintf(&yaml, "  - Origin: %s\n    URL: %s\n    PublicKey: %s\n    Feeder: %s\n", strconv.Quote(ld.Origin), url, ld.Key.VerifierString(), kind) // quoted: origins may begin or end with blanks
 	}
@@ -402,6 +411,47 @@ func (w faultyW) GetLatest() ([]byte, error) {
 		w.f.atWriteRead(w.id, n) // the update now holds its transaction and has read the state it will judge against
 	}
 	return b, gerr
+}
+
+// rekorStub serves a tileStub's log the way a Rekor instance does.
+type rekorStub struct {
+	st       *tileStub
+	treeID   string
+	inactive bool // the configured tree is listed among the inactive shards; the active shard is another tree
+}
+
+func (h *rekorStub) ServeHTTP(rw http.ResponseWriter, rq *http.Request) {
+	switch rq.URL.Path {
+	case "/api/v1/log":
+		cp := string(h.st.checkpoint())
+		info := map[string]any{"signedTreeHead": cp, "treeID": h.treeID, "treeSize": 1, "rootHash": "00", "inactiveShards": []any{}}
+		if h.inactive {
+			info = map[string]any{"signedTreeHead": "other.example/log\n1\nAAAA\n\n\u2014 k AAAAAAAA\n", "treeID": "999", "treeSize": 1, "rootHash": "00",
+				"inactiveShards": []any{map[string]any{"signedTreeHead": "x", "treeID": "555", "treeSize": 1, "rootHash": "00"}, map[string]any{"signedTreeHead": cp, "treeID": h.treeID, "treeSize": 1, "rootHash": "00"}}}
+		}
+		js, _ := json.Marshal(info)
+		rw.Write(js)
+	case "/api/v1/log/proof":
+		var a, b uint64
+		fmt.Sscan(rq.URL.Query().Get("firstSize"), &a)
+		fmt.Sscan(rq.URL.Query().Get("lastSize"), &b)
+		h.st.mu.Lock()
+		tree := h.st.tree
+		h.st.mu.Unlock()
+		hs := []string{}
+		if a > 0 && a < b && b <= 1<<40 {
+			for _, x := range tree.ConsistencyProof(a, b) {
+				hs = append(hs, hex.EncodeToString(x))
+			}
+		}
+		js, _ := json.Marshal(map[string]any{"hashes": hs})
+		rw.Write(js)
+		h.st.mu.Lock()
+		h.st.served++
+		h.st.mu.Unlock()
+	default:
+		http.NotFound(rw, rq)
+	}
 }
 
 // ---------------------------------------------------------------- C14
@@ -918,7 +968,7 @@ func init() {
 			var feeders []string
 			for i := 0; i < nl; i++ {
 				p.Cfg.Logs = append(p.Cfg.Logs, LogCfg{Origin: fmt.Sprintf("sim.example/main%d", i), Key: i})
-				feeders = append(feeders, "tiles") // only one SumDB-shaped log can exist: its origin is fixed by the format
+				feeders = append(feeders, Pick(r, "tiles", "tiles", "tiles", "rekor")) // only one SumDB-shaped log can exist: its origin is fixed by the format
 				p.Cfg.Extra[fmt.Sprintf("size%d", i)] = int64(Pick(r, 1, 2, 200, 254, 255, 256, 257, 300, 65530, 65536))
 				p.Cfg.Extra[fmt.Sprintf("ext%d", i)] = int64(r.IntN(2))
 				if i > 0 && r.Chance(0.25) {
